@@ -50,6 +50,7 @@ var wgeoms = map[string]wgeom{
 	"gtail":  {"gtail", 2 * wchunk, 5*wchunk + 1},        // third piece: one full block + a 1-byte block
 	"g8":     {"g8", wchunk, 8 * wchunk},                 // 8 one-block pieces (piece count multiple of 8)
 	"g9":     {"g9", wchunk, 9 * wchunk},                 // 9 one-block pieces
+	"gbig":   {"gbig", 256 * wchunk, 512*wchunk + 100},   // 4 MiB pieces (mmap'd), holes larger than 1 MiB
 }
 
 func (g wgeom) npieces() int { return int((g.Length + int64(g.PSize) - 1) / int64(g.PSize)) }
